@@ -82,6 +82,7 @@ def run(ctx):
     ctx.rule("R18.c", "where a mutator rebuilds names after removing an object, the filter keeps the entries NOT identical to it (pop and remove agree)", floor=2)
     ctx.rule("R18.d", "every store mutation of a mutator lies inside exactly one `with self._trigger(...)` scope; delegated mutator calls pass trigger=False", floor=8)
     ctx.rule("R18.e", "readers use the current stores (get_range reads _objects and names; membership is tested against self.objects; the objects setter assigns names and _objects together)", floor=4)
+    ctx.rule("R18.f", "outside ListProxy and the objects setter, _objects grows only in Selector._ensure_value_is_in_objects, which tests membership against the current objects for every single value", floor=1)
     ctx.not_decided += ["consistency after arbitrary mutation sequences (follows from per-mutator pairing but is not executed)",
                         "list mutators that ListProxy does not override (sort, reverse, __delitem__, +=) -- reported as informational"]
     cls = ctx.repo.cls(LP)
@@ -185,6 +186,13 @@ def run(ctx):
                                                      "(the sibling mutator keeps the others)" % (m, norm(cond)),
                                      key="%s::inverted-prune" % f.qualname,
                                      input="Selector(objects={'a':1,'b':2,'c':3}).objects.pop(0) -> names == {'a': 1}")
+        # every rebuild of names in a remover must be a recognised prune
+        from engine.loader import AnalysisError
+        for st in ast.walk(f.node):
+            if isinstance(st, ast.Assign) and any(names_store(t) for t in st.targets):
+                if not isinstance(st.value, ast.DictComp):
+                    raise AnalysisError("R18.c cannot decide: ListProxy.%s rebuilds names with `%s`, which is not a filter of the old names by identity with the removed "
+                                        "object (positional reconstructions are not decidable here, e.g. for negative indices)" % (m, norm(st.value)[:80]))
         if not found:
             # names updated by other means (e.g. names.pop(key)) -- acceptable when the removed key is deleted explicitly
             if any(isinstance(c, ast.Call) and isinstance(c.func, ast.Attribute) and names_store(c.func.value) and c.func.attr in ("pop",) for c in ast.walk(f.node)):
@@ -222,6 +230,7 @@ def run(ctx):
         else:
             ctx.fail("R18.e", setter, setter.node, "the objects setter does not assign both names and _objects on every branch")
 
+    _rule_f(ctx)
     overridden = set(cls.methods)
     for m in ("sort", "reverse", "__delitem__", "__iadd__", "__imul__"):
         if m not in overridden:
@@ -243,3 +252,28 @@ def _leaf_blocks(body):
             for leaf in _leaf_blocks(b):
                 out.append(rest + leaf)
     return out
+
+
+def _rule_f(ctx):
+    allowed = {"param.parameters.Selector._ensure_value_is_in_objects"}
+    n = 0
+    for q in ctx.hier.descendants("param.parameters.SelectorBase"):
+        for mname, fl in ctx.repo.classes[q].methods.items():
+            f = fl[-1]
+            for c in ast.walk(f.node):
+                if isinstance(c, ast.Call) and isinstance(c.func, ast.Attribute) and c.func.attr in ("append", "extend", "insert", "__iadd__") \
+                        and norm(c.func.value) == "self._objects":
+                    n += 1
+                    if f.qualname in allowed:
+                        guard = any(isinstance(i, ast.If) and any(isinstance(o, ast.NotIn) for cmp_ in ast.walk(i.test) if isinstance(cmp_, ast.Compare) for o in cmp_.ops)
+                                    and norm(i.test).endswith("self.objects") for i in ast.walk(f.node))
+                        if guard:
+                            ctx.ok("R18.f", f, c, "single auto-append site, guarded by `val not in self.objects` (current objects)")
+                        else:
+                            ctx.fail("R18.f", f, c, "_ensure_value_is_in_objects appends without testing membership against the current self.objects")
+                    else:
+                        ctx.fail("R18.f", f, c, "`%s` grows _objects outside _ensure_value_is_in_objects: values are not checked one by one against the current objects "
+                                                "(a value repeated in one assignment is appended twice; names/range diverge from the list)" % norm(c)[:70],
+                                 key="%s::foreign-objects-append" % f.qualname,
+                                 input="ListSelector(objects=[1,2], check_on_set=False); p.x = [9, 2, 9] -> objects == [1, 2, 9, 9]")
+    ctx.require(n >= 1, "the auto-append of Selector._ensure_value_is_in_objects was not found")
